@@ -606,3 +606,12 @@ Example no_output_example :
                            LExec false; LRed; LRed; LRed; LRed; LMain BOut; LMain BOut; LMain BOut; LMain BOut] in
   result s = Some ONoOutput /\ g_cancels s = [].
 Proof. vm_compute. split; reflexivity. Qed.
+
+(* a Load interleaved with concurrent Sets of one concrete type - after any k of the Stores, in any
+   order - returns the old content or one of the non-nil values being Set (Check: mid_allowed) *)
+Theorem interleaved_load : forall st vs order k,
+  Permutation vs order -> consistent st vs = true ->
+  let '(st', p) := ae_sets guard_today st (firstn k order) in
+  p = false /\ mid_allowed st vs (ae_load st') = true.
+Proof. exact interleaved_load_l. Qed.
+Print Assumptions interleaved_load.
